@@ -160,9 +160,11 @@ func runCheck(repo, verif, prop string, thorough, verbose, writeEvidence, update
 	run := &checkRun{prop: prop, thorough: thorough, eng: eng}
 	// functions under contract for this property
 	type target struct {
-		fn    *ssa.Function
-		fc    *FuncContract
-		extra []*Clause
+		fn           *ssa.Function
+		fc           *FuncContract
+		extra        []*Clause
+		closure      bool // pulled in because a target applies this function's contract (all its obligations count)
+		closureExtra bool // already a target; interface clauses used by another target were added
 	}
 	var targets []target
 	var missing []string
@@ -253,13 +255,92 @@ func runCheck(repo, verif, prop string, thorough, verbose, writeEvidence, update
 			targets = append(targets, target{fn: fn, fc: &cp})
 		}
 	}
-	for _, t := range targets {
+	// Dependency closure: a caller is verified against the contracts of its callees, so the property's argument is only
+	// complete when those callee contracts (and the implementations of interface contracts used at invoke sites) are
+	// themselves discharged. Every contract applied while encoding a target is therefore verified in this check too,
+	// transitively, whatever properties its own clauses name.
+	inTargets := map[*ssa.Function]int{}
+	for i, t := range targets {
+		inTargets[t.fn] = i
+	}
+	doneIface := map[string]bool{}
+	for i := 0; i < len(targets); i++ {
+		t := targets[i]
 		res := eng.encodeFunction(t.fn, t.fc, t.extra)
+		res.Closure = t.closure
 		run.results = append(run.results, res)
 		run.canaries = append(run.canaries, res.Canary)
 		for _, o := range res.Obls {
-			if contains(o.Props, prop) {
+			if t.closure || contains(o.Props, prop) {
 				run.obls = append(run.obls, o)
+			} else if t.closureExtra && strings.HasPrefix(o.Label, "iface:") {
+				run.obls = append(run.obls, o)
+			}
+		}
+		if sweepProps[prop] {
+			continue // the sweep property claims safety obligations only; functional contracts belong to the other checks
+		}
+		for _, uf := range res.UsedFns {
+			if _, ok := inTargets[uf]; ok || !eng.inRepo(uf) || len(uf.Blocks) == 0 {
+				continue
+			}
+			fc := eng.contractFor(uf)
+			if fc == nil || fc.Trusted || fc.Assumed || fc.Pkg == "" {
+				continue
+			}
+			inTargets[uf] = len(targets)
+			targets = append(targets, target{fn: uf, fc: fc, extra: eng.ifaceClausesFor(uf), closure: true})
+		}
+		for _, ik := range res.UsedIfaces {
+			if doneIface[ik] {
+				continue
+			}
+			doneIface[ik] = true
+			ifc := eng.specs.ifaces[ik]
+			if ifc == nil || ifc.Assumed {
+				continue
+			}
+			parts := strings.Split(ik, ".")
+			if len(parts) < 2 {
+				continue
+			}
+			tag := "iface:" + parts[len(parts)-2] + "." + parts[len(parts)-1] + ":"
+			for _, key := range sortedKeys(eng.funcs) {
+				fn := eng.funcs[key]
+				if fn.Name() != parts[len(parts)-1] || fn.Synthetic != "" {
+					continue
+				}
+				var mine []*Clause
+				for _, c := range eng.ifaceClausesFor(fn) {
+					if strings.HasPrefix(c.Label, tag) {
+						mine = append(mine, c)
+					}
+				}
+				if len(mine) == 0 {
+					continue
+				}
+				if j, ok := inTargets[fn]; ok {
+					if j > i {
+						// not yet encoded: make sure these clauses are part of it
+						have := map[string]bool{}
+						for _, c := range targets[j].extra {
+							have[c.Label] = true
+						}
+						for _, c := range mine {
+							if !have[c.Label] {
+								targets[j].extra = append(targets[j].extra, c)
+							}
+						}
+						targets[j].closureExtra = true
+					}
+					continue
+				}
+				fc := eng.contractFor(fn)
+				if fc != nil && (fc.Trusted || fc.Assumed) {
+					continue
+				}
+				inTargets[fn] = len(targets)
+				targets = append(targets, target{fn: fn, fc: fc, extra: mine, closure: true})
 			}
 		}
 	}
